@@ -51,18 +51,10 @@ package contractcourt
 
 import (
 	"fmt"
-	"strings"
-	"sync"
-	"time"
 
-	"github.com/btcsuite/btcd/address/v2"
 	"github.com/btcsuite/btcd/wire/v2"
-	"github.com/btcsuite/btclog/v2"
-	"github.com/lightningnetwork/lnd/chainio"
-	"github.com/lightningnetwork/lnd/chainntnfs"
 	"github.com/lightningnetwork/lnd/channeldb"
 	"github.com/lightningnetwork/lnd/fn/v2"
-	lnmock "github.com/lightningnetwork/lnd/lntest/mock"
 	"github.com/lightningnetwork/lnd/lnwallet"
 )
 
@@ -70,96 +62,7 @@ const (
 	// watchers (each on its own decoded instance) per party and load:
 	// <= 4 revoked heights + the negative control.
 	verifC04CwPerParty = 5
-
-	// generous watchdog for one asynchronous dispatch.
-	verifC04CwDeadline = 30 * time.Second
 )
-
-// verifC04LogSink receives the contractcourt ("CNCT") log lines while a spend
-// is being delivered; handleCommitSpend's error is only logged by
-// closeObserver, this is where it is read.
-type verifC04LogSink struct {
-	mu    sync.Mutex
-	on    bool
-	lines []string
-}
-
-func (s *verifC04LogSink) Write(p []byte) (int, error) {
-	s.mu.Lock()
-	if s.on && len(s.lines) < 40 {
-		l := strings.TrimSpace(string(p))
-		if len(l) > 400 {
-			l = l[:400] + "..."
-		}
-		s.lines = append(s.lines, l)
-	}
-	s.mu.Unlock()
-	return len(p), nil
-}
-
-func (s *verifC04LogSink) start() {
-	s.mu.Lock()
-	s.on, s.lines = true, nil
-	s.mu.Unlock()
-}
-
-func (s *verifC04LogSink) snapshot() []string {
-	s.mu.Lock()
-	defer s.mu.Unlock()
-	return append([]string(nil), s.lines...)
-}
-
-func (s *verifC04LogSink) stop() []string {
-	s.mu.Lock()
-	defer s.mu.Unlock()
-	s.on = false
-	return append([]string(nil), s.lines...)
-}
-
-var (
-	verifC04CwSink   = &verifC04LogSink{}
-	verifC04CwLogger btclog.Logger
-)
-
-// verifC04CwInstallLog routes the package logger of the chain watcher into
-// the sink (level Off outside a delivery window). Returns the restore func.
-func verifC04CwInstallLog() func() {
-	old := log
-	verifC04CwLogger = btclog.NewSLogger(btclog.NewDefaultHandler(
-		verifC04CwSink, btclog.WithNoTimestamp(),
-	))
-	verifC04CwLogger.SetLevel(btclog.LevelOff)
-	log = verifC04CwLogger
-	return func() { log = old }
-}
-
-// verifC04Watch is one started chain watcher over one instance of a party's
-// channel state, decoded from that party's live database at load time.
-type verifC04Watch struct {
-	w        *chainWatcher
-	ntfr     *lnmock.ChainNotifier
-	sub      *ChainEventSubscription
-	loadedAt uint64 // RemoteCommitment.CommitHeight of the instance at load
-	stopped  bool
-
-	// multiConf: the production mode (confirmations scaled with the
-	// capacity): the spend is first tracked as pending and handled when the
-	// confirmation notification fires. Otherwise the single-confirmation
-	// mode of the package's own tests (handled on spend detection).
-	multiConf bool
-
-	mu       sync.Mutex
-	breaches []*lnwallet.BreachRetribution
-}
-
-func (wt *verifC04Watch) stop() {
-	if wt.stopped {
-		return
-	}
-	wt.stopped = true
-	wt.sub.Cancel()
-	_ = wt.w.Stop()
-}
 
 // cwLoad is "node start" for both parties: the watchers of the previous load
 // are stopped and new ones are started on freshly decoded instances.
@@ -172,40 +75,7 @@ func (c *verifC04Case) cwLoad() {
 				c.t.Fatalf("C04 chain watcher: FetchAllChannels of party %d: n=%d err=%v",
 					i, len(chans), err)
 			}
-			wt := &verifC04Watch{
-				ntfr: &lnmock.ChainNotifier{
-					SpendChan: make(chan *chainntnfs.SpendDetail, 1),
-					EpochChan: make(chan *chainntnfs.BlockEpoch),
-					ConfChan:  make(chan *chainntnfs.TxConfirmation, 1),
-				},
-				loadedAt:  chans[0].RemoteCommitment.CommitHeight,
-				multiConf: (k+c.idx)%2 == 1,
-			}
-			confs := fn.Some(uint32(1))
-			if wt.multiConf {
-				confs = fn.None[uint32]()
-			}
-			wt.w, err = newChainWatcher(chainWatcherConfig{
-				chanState:           chans[0],
-				notifier:            wt.ntfr,
-				signer:              c.e.Signer(i),
-				extractStateNumHint: lnwallet.GetStateNumHint,
-				isOurAddr:           func(address.Address) bool { return false },
-				chanCloseConfs:      confs,
-				contractBreach: func(r *lnwallet.BreachRetribution) error {
-					wt.mu.Lock()
-					wt.breaches = append(wt.breaches, r)
-					wt.mu.Unlock()
-					return nil
-				},
-			})
-			if err != nil {
-				c.t.Fatalf("C04 chain watcher: newChainWatcher of party %d: %v", i, err)
-			}
-			wt.sub = wt.w.SubscribeChannelEvents()
-			if err := wt.w.Start(); err != nil {
-				c.t.Fatalf("C04 chain watcher: Start: %v", err)
-			}
+			wt := verifCwNewWatch(c.t, chans[0], c.e.Signer(i), (k+c.idx)%2 == 1)
 			c.cw[i] = append(c.cw[i], wt)
 			c.vc.Count("cw_watchers_started", 1)
 		}
@@ -223,168 +93,13 @@ func (c *verifC04Case) cwStopAll() {
 }
 
 // cwTake hands out one not yet used watcher of the party.
-func (c *verifC04Case) cwTake(party int) *verifC04Watch {
+func (c *verifC04Case) cwTake(party int) *verifCwWatch {
 	if len(c.cw[party]) == 0 {
 		return nil
 	}
 	wt := c.cw[party][0]
 	c.cw[party] = c.cw[party][1:]
 	return wt
-}
-
-// verifC04CwOutcome is everything the watcher did with one spend.
-type verifC04CwOutcome struct {
-	breaches []*lnwallet.BreachRetribution // contractBreach callback
-	breachEv *BreachCloseInfo
-	remote   *RemoteUnilateralCloseInfo
-	local    *LocalUnilateralCloseInfo
-	coop     *CooperativeCloseInfo
-	returned bool // the closeObserver iteration that took the spend returned
-	dlpWait  bool // the watcher sits in the data-loss commit point wait
-	logs     []string
-	dur      time.Duration
-}
-
-func (o *verifC04CwOutcome) errLines() []string {
-	var out []string
-	for _, l := range o.logs {
-		if strings.Contains(l, "[ERR]") || strings.Contains(l, "[CRT]") {
-			out = append(out, l)
-		}
-	}
-	return out
-}
-
-func (o *verifC04CwOutcome) String() string {
-	return fmt.Sprintf("breach retributions handed to contractBreach=%d, breach event=%v, "+
-		"remote unilateral close event=%v, local unilateral close event=%v, cooperative close "+
-		"event=%v, handler returned=%v, data-loss wait=%v, took %v\nwatcher log:\n  %s",
-		len(o.breaches), o.breachEv != nil, o.remote != nil, o.local != nil, o.coop != nil,
-		o.returned, o.dlpWait, o.dur, strings.Join(o.logs, "\n  "))
-}
-
-// cwDeliver delivers tx as the spend of the funding outpoint to the started
-// watcher, waits until the watcher is done with it, stops the watcher and
-// reports what it dispatched.
-func (c *verifC04Case) cwDeliver(wt *verifC04Watch, tx *wire.MsgTx) *verifC04CwOutcome {
-	out := &verifC04CwOutcome{}
-	txid := tx.TxHash()
-	fundingOp := wt.w.cfg.chanState.FundingOutpoint
-	spend := &chainntnfs.SpendDetail{
-		SpentOutPoint: &fundingOp, SpenderTxHash: &txid, SpendingTx: tx,
-		SpenderInputIndex: 0, SpendingHeight: verifC04BreachHeight,
-	}
-
-	verifC04CwSink.start()
-	verifC04CwLogger.SetLevel(btclog.LevelInfo)
-	begin := time.Now()
-
-	select {
-	case wt.ntfr.SpendChan <- spend:
-	default:
-		c.t.Fatalf("C04 chain watcher: spend channel of an unused watcher is full")
-	}
-	done := make(chan struct{})
-	go func() {
-		defer close(done)
-		height := int32(verifC04BreachHeight)
-		beats := func() {
-			for k := 0; k < 2; k++ {
-				_ = wt.w.ProcessBlock(chainio.NewBeat(chainntnfs.BlockEpoch{
-					Height: height,
-				}))
-				height++
-			}
-		}
-		// after these the spend has been taken: handled (single
-		// confirmation) or tracked as pending with a confirmation
-		// registration (multi confirmation).
-		beats()
-		if wt.multiConf {
-			select {
-			case wt.ntfr.ConfChan <- &chainntnfs.TxConfirmation{
-				BlockHeight: uint32(height), Tx: tx,
-			}:
-			default:
-			}
-			// after these the confirmation has been handled.
-			beats()
-		}
-	}()
-
-	deadline := time.NewTimer(verifC04CwDeadline)
-	defer deadline.Stop()
-	tick := time.NewTicker(2 * time.Millisecond)
-	defer tick.Stop()
-wait:
-	for {
-		select {
-		case <-done:
-			out.returned = true
-			break wait
-		case <-tick.C:
-			// handleUnknownRemoteState of a non-tweakless channel
-			// never returns: it polls for the data-loss commit
-			// point and says so.
-			for _, l := range verifC04CwSink.snapshot() {
-				if strings.Contains(l, "Unable to retrieve commitment point") {
-					out.dlpWait = true
-					break wait
-				}
-			}
-		case <-deadline.C:
-			break wait
-		}
-	}
-	out.dur = time.Since(begin)
-
-	// Stop first: it ends a watcher that did not return (quit), and after it
-	// nothing is written any more.
-	wt.stop()
-	<-done
-	verifC04CwLogger.SetLevel(btclog.LevelOff)
-	out.logs = verifC04CwSink.stop()
-
-	wt.mu.Lock()
-	out.breaches = append(out.breaches, wt.breaches...)
-	wt.mu.Unlock()
-	select {
-	case out.breachEv = <-wt.sub.ContractBreach:
-	default:
-	}
-	select {
-	case out.remote = <-wt.sub.RemoteUnilateralClosure:
-	default:
-	}
-	select {
-	case out.local = <-wt.sub.LocalUnilateralClosure:
-	default:
-	}
-	select {
-	case out.coop = <-wt.sub.CooperativeClosure:
-	default:
-	}
-
-	if wt.multiConf {
-		c.vc.Count("cw_multi_conf_deliveries", 1)
-	} else {
-		c.vc.Count("cw_single_conf_deliveries", 1)
-	}
-	if out.returned {
-		us := out.dur.Microseconds()
-		c.vc.Max("cw_dispatch_us", us)
-		switch {
-		case us < 10_000:
-			c.vc.Count("cw_dispatch_lt_10ms", 1)
-		case us < 100_000:
-			c.vc.Count("cw_dispatch_lt_100ms", 1)
-		case us < 1_000_000:
-			c.vc.Count("cw_dispatch_lt_1s", 1)
-		default:
-			c.vc.Count("cw_dispatch_ge_1s", 1)
-		}
-	}
-	return out
 }
 
 // cwSample picks <= 4 of the revoked heights: the newest, the two around the
@@ -470,9 +185,9 @@ func (c *verifC04Case) cwChecks(victim int, db *channeldb.DB, st *channeldb.Open
 		if wt == nil {
 			return
 		}
-		var o *verifC04CwOutcome
+		var o *verifCwOutcome
 		if c.vc.Guard("state_recognised", "cw-panic/"+c.p.TypeName, base, func() {
-			o = c.cwDeliver(wt, revokedTx)
+			o = verifCwDeliver(c.t, c.vc, wt, revokedTx, verifC04BreachHeight)
 		}) {
 			c.failed = true
 			return
@@ -520,7 +235,7 @@ func (c *verifC04Case) cwChecks(victim int, db *channeldb.DB, st *channeldb.Open
 			continue
 		case len(o.breaches) == 0:
 			c.t.Fatalf("C04 chain watcher: no dispatch, no logged error and no return within %v "+
-				"(inconclusive): %s\n%v", verifC04CwDeadline, base, o)
+				"(inconclusive): %s\n%v", verifCwDeadline, base, o)
 		}
 		br := o.breaches[0]
 		if len(o.breaches) > 1 {
@@ -569,9 +284,9 @@ func (c *verifC04Case) cwChecks(victim int, db *channeldb.DB, st *channeldb.Open
 		return
 	}
 	base := fmt.Sprintf("victim=%d cheater=%d current height=%d type=%s", victim, cheater, cur, c.p.TypeName)
-	var o *verifC04CwOutcome
+	var o *verifCwOutcome
 	if c.vc.Guard("state_recognised", "cw-control-panic/"+c.p.TypeName, base, func() {
-		o = c.cwDeliver(wt, curTx)
+		o = verifCwDeliver(c.t, c.vc, wt, curTx, verifC04BreachHeight)
 	}) {
 		c.failed = true
 		return
